@@ -10,14 +10,14 @@ Theorem C31_nthroot_spec_guarded :
   forall (s : poly) (np : positive) (prec : N) (c : Q),
     wfb s = true -> const0 s = false -> (2 <= Zpos np)%Z -> prec_ok prec = true ->
     qroot (find_cf s 0) np = Ok c ->
-    exists r, series_nthroot s (Zpos np) prec = Ok r /\ wf r /\
+    exists r, series_nthroot s (Zpos np) prec = Ok r /\ wf r /\ den r O == c /\
               eqn (N.to_nat prec) (ppow_s (den r) (Pos.to_nat np)) (den s).
 Proof. exact nthroot_spec_b. Qed.
 Theorem C31_nthroot_inv_spec_guarded :
   forall (s : poly) (np : positive) (prec : N) (c : Q),
     wfb s = true -> const0 s = false -> (2 <= Zpos np)%Z -> prec_ok prec = true ->
     qroot (find_cf s 0) np = Ok c -> qis0 c = false ->
-    exists r, series_nthroot s (Zneg np) prec = Ok r /\ wf r /\
+    exists r, series_nthroot s (Zneg np) prec = Ok r /\ wf r /\ den r O == / c /\
               eqn (N.to_nat prec) (ppow_s (den r) (Pos.to_nat np) * den s)%ps p1.
 Proof. exact nthroot_inv_spec_b. Qed.
 Print Assumptions C31_nthroot_spec_guarded.
